@@ -16,13 +16,16 @@
 // fields; each fragment touches one half only, so it is run from ANY state of that
 // half (≤2 pending entries, resp. ≤2 peers × ≤2 connections) with the other half empty: inv is re-established and the step's own effect
 // (which entry appears/disappears, what is returned) is as the statement says.
-use crate::verif_shims::HashMap as SMap;
+use crate::verif_shims::SmallMap;
+type PendingMap = SmallMap<ConnectionId, PendingConnection, 2>;
+type ConnMap = SmallMap<ConnectionId, EstablishedConnection<()>, 2>;
+type PeerMap = SmallMap<PeerId, ConnMap, 2>;
 include!(concat!(env!("LIBP2P_VERIF"), "/shims/clock.rs"));
 
 pub(crate) struct PoolEnv {
     pub(crate) counters: ConnectionCounters,
-    pub(crate) pending: SMap<ConnectionId, PendingConnection>,
-    pub(crate) established: SMap<PeerId, SMap<ConnectionId, EstablishedConnection<()>>>,
+    pub(crate) pending: PendingMap,
+    pub(crate) established: PeerMap,
     pub(crate) task_command_buffer_size: usize,
     pub(crate) per_connection_event_buffer_size: usize,
 }
@@ -91,8 +94,8 @@ fn inv(s: &PoolEnv) -> bool {
 fn empty_state() -> PoolEnv {
     PoolEnv {
         counters: ConnectionCounters::new(),
-        pending: SMap::new(),
-        established: SMap::new(),
+        pending: PendingMap::new(),
+        established: PeerMap::new(),
         task_command_buffer_size: 1,
         per_connection_event_buffer_size: 1,
     }
@@ -106,52 +109,53 @@ fn set_counters_to_recount(s: &mut PoolEnv) {
     s.counters.established_outgoing = n[3];
 }
 
-/// ANY pending half of a state satisfying inv with <= 2 pending entries (ids 0..=3,
-/// endpoints arbitrary), established side empty.  `peer_id` of pre-existing entries
-/// is None (no fragment reads it).
+fn any_pending_entry(id: u8) -> Option<(ConnectionId, PendingConnection)> {
+    if kani::any() {
+        Some((cid(id), PendingConnection { peer_id: None, endpoint: any_pending_point(), abort_notifier: None, accepted_at: clock::zero() }))
+    } else {
+        None
+    }
+}
+
+/// ANY pending half of a state satisfying inv: up to 2 pending entries with pairwise
+/// distinct ids 0..=3 in arbitrary cells, endpoints arbitrary; established side empty.
+/// `peer_id` of pre-existing entries is None (no fragment reads it).
 fn any_pending_state() -> PoolEnv {
     let mut s = empty_state();
-    let n: u8 = kani::any();
-    kani::assume(n <= 2);
-    let id0: u8 = kani::any();
-    let id1: u8 = kani::any();
-    kani::assume(id0 < 4 && id1 < 4 && id0 != id1);
-    if n >= 1 {
-        s.pending.insert(cid(id0), PendingConnection { peer_id: None, endpoint: any_pending_point(), abort_notifier: None, accepted_at: clock::zero() });
-    }
-    if n >= 2 {
-        s.pending.insert(cid(id1), PendingConnection { peer_id: None, endpoint: any_pending_point(), abort_notifier: None, accepted_at: clock::zero() });
-    }
+    let ids: [u8; 2] = kani::any();
+    kani::assume(ids[0] < 4 && ids[1] < 4 && ids[0] != ids[1]);
+    s.pending = PendingMap::from_cells([any_pending_entry(ids[0]), any_pending_entry(ids[1])]);
     set_counters_to_recount(&mut s);
     s
 }
 
-/// ANY established half of a state satisfying inv: peers {1,2}, <= 2 connections
-/// each (ids 4..=7, pairwise distinct), endpoints arbitrary; pending side empty.
-/// All command senders are clones of one channel's sender (the fragments never send).
+fn any_conn(id: u8, tx: &mpsc::Sender<task::Command<()>>) -> Option<(ConnectionId, EstablishedConnection<()>)> {
+    if kani::any() {
+        Some((cid(id), EstablishedConnection { endpoint: any_connected_point(), sender: tx.clone() }))
+    } else {
+        None
+    }
+}
+
+/// ANY established half of a state satisfying inv: up to 2 peers (from {1,2}, in
+/// arbitrary cells), each with 1 or 2 connections (ids 4..=7 pairwise distinct, in
+/// arbitrary cells), endpoints arbitrary; pending side empty.  All command senders
+/// are clones of one channel's sender (the fragments never send).
 fn any_established_state() -> PoolEnv {
     let mut s = empty_state();
     let (tx, rx) = mpsc::channel::<task::Command<()>>(0);
     std::mem::forget(rx);
-    let mut p = 1u8;
-    while p <= 2 {
-        let mut k = 0u8;
-        while k < 2 {
-            if kani::any() {
-                let id: u8 = kani::any();
-                kani::assume(id >= 4 && id < 8);
-                let taken = s.established.iter().any(|(_, m)| m.contains_key(&cid(id)));
-                if !taken {
-                    s.established
-                        .entry(peer(p))
-                        .or_default()
-                        .insert(cid(id), EstablishedConnection { endpoint: any_connected_point(), sender: tx.clone() });
-                }
-            }
-            k += 1;
-        }
-        p += 1;
-    }
+    let ids: [u8; 4] = kani::any();
+    kani::assume(ids[0] >= 4 && ids[0] < 8 && ids[1] >= 4 && ids[1] < 8 && ids[2] >= 4 && ids[2] < 8 && ids[3] >= 4 && ids[3] < 8);
+    kani::assume(ids[0] != ids[1] && ids[0] != ids[2] && ids[0] != ids[3] && ids[1] != ids[2] && ids[1] != ids[3] && ids[2] != ids[3]);
+    let first: u8 = kani::any();
+    kani::assume(first == 1 || first == 2);
+    let a = ConnMap::from_cells([any_conn(ids[0], &tx), any_conn(ids[1], &tx)]);
+    let b = ConnMap::from_cells([any_conn(ids[2], &tx), any_conn(ids[3], &tx)]);
+    // inv: a peer entry exists only if it has at least one connection
+    let cell_a = if a.is_empty() { std::mem::forget(a); None } else { Some((peer(first), a)) };
+    let cell_b = if b.is_empty() { std::mem::forget(b); None } else { Some((peer(3 - first), b)) };
+    s.established = PeerMap::from_cells([cell_a, cell_b]);
     std::mem::forget(tx);
     set_counters_to_recount(&mut s);
     s
@@ -163,7 +167,7 @@ fn conns_of(s: &PoolEnv, p: &PeerId) -> usize {
 
 // ---- add_outgoing / add_incoming: a new pending entry, its counter +1 -----------
 #[kani::proof]
-#[kani::unwind(6)]
+#[kani::unwind(5)]
 #[kani::stub(std::time::Instant::now, clock::now)]
 fn pool_add_outgoing_registers_one_pending_dial() {
     let mut s = any_pending_state();
@@ -189,7 +193,7 @@ fn pool_add_outgoing_registers_one_pending_dial() {
 }
 
 #[kani::proof]
-#[kani::unwind(6)]
+#[kani::unwind(5)]
 #[kani::stub(std::time::Instant::now, clock::now)]
 fn pool_add_incoming_registers_one_pending_inbound() {
     let mut s = any_pending_state();
@@ -214,7 +218,7 @@ fn pool_add_incoming_registers_one_pending_inbound() {
 
 // ---- a pending connection resolves (established or failed): entry gone, its counter -1 ----
 #[kani::proof]
-#[kani::unwind(6)]
+#[kani::unwind(5)]
 fn pool_pending_resolved_established() {
     let mut s = any_pending_state();
     let id: u8 = kani::any();
@@ -233,7 +237,7 @@ fn pool_pending_resolved_established() {
 }
 
 #[kani::proof]
-#[kani::unwind(6)]
+#[kani::unwind(5)]
 fn pool_pending_resolved_failed() {
     let mut s = any_pending_state();
     let id: u8 = kani::any();
@@ -256,7 +260,7 @@ fn pool_pending_resolved_failed() {
 
 // ---- spawn_connection: the peer gains exactly this connection, its counter +1 ------
 #[kani::proof]
-#[kani::unwind(6)]
+#[kani::unwind(5)]
 fn pool_spawn_connection_registers_established() {
     let mut s = any_established_state();
     let id: u8 = kani::any();
@@ -288,7 +292,7 @@ fn pool_spawn_connection_registers_established() {
 // ---- Closed: the connection disappears, counter -1, `remaining` is exactly what is left,
 //      and the peer stops being "connected" exactly when nothing is left ---------------
 #[kani::proof]
-#[kani::unwind(6)]
+#[kani::unwind(5)]
 fn pool_connection_closed_bookkeeping() {
     let mut s = any_established_state();
     let id: u8 = kani::any();
@@ -326,7 +330,7 @@ fn pool_connection_closed_bookkeeping() {
 
 // ---- views used by Swarm::is_connected / connected_peers / num_established ------------
 #[kani::proof]
-#[kani::unwind(6)]
+#[kani::unwind(5)]
 fn pool_views_agree_with_established_map() {
     let mut s = any_established_state();
     let pb: u8 = kani::any();
@@ -345,7 +349,7 @@ fn pool_views_agree_with_established_map() {
 
 /// Vacuity canary: must FAIL (closing a connection would leave the counters alone).
 #[kani::proof]
-#[kani::unwind(6)]
+#[kani::unwind(5)]
 fn canary_closed_keeps_counters() {
     let mut s = any_established_state();
     let id: u8 = kani::any();
@@ -359,4 +363,43 @@ fn canary_closed_keeps_counters() {
 fn snap_eq(s: &PoolEnv, b: [u32; 4]) -> bool {
     let c = &s.counters;
     [c.pending_incoming, c.pending_outgoing, c.established_incoming, c.established_outgoing] == b
+}
+
+// ---- diagnostics (dev only, not registered) ----
+#[kani::proof]
+#[kani::unwind(5)]
+fn diag_empty() {
+    let mut s = empty_state();
+    let r = s.pending_failed_head(cid(1));
+    assert!(r.is_none());
+    std::mem::forget(s);
+}
+#[kani::proof]
+#[kani::unwind(5)]
+fn diag_one_dialer() {
+    let mut s = empty_state();
+    s.pending = PendingMap::from_cells([
+        Some((cid(1), PendingConnection { peer_id: None, endpoint: PendingPoint::Dialer { role_override: Endpoint::Dialer, port_use: PortUse::Reuse }, abort_notifier: None, accepted_at: clock::zero() })),
+        None,
+    ]);
+    s.counters.pending_outgoing = 1;
+    let r = s.pending_failed_head(cid(1));
+    assert!(r.is_some());
+    assert!(s.counters.pending_outgoing == 0);
+    std::mem::forget((s, r));
+}
+#[kani::proof]
+#[kani::unwind(5)]
+fn diag_sym_dialers() {
+    let mut s = empty_state();
+    let id: u8 = kani::any();
+    kani::assume(id < 4);
+    let mk = |i: u8| if kani::any() { Some((cid(i), PendingConnection { peer_id: None, endpoint: PendingPoint::Dialer { role_override: Endpoint::Dialer, port_use: PortUse::Reuse }, abort_notifier: None, accepted_at: clock::zero() })) } else { None };
+    s.pending = PendingMap::from_cells([mk(0), mk(1)]);
+    set_counters_to_recount(&mut s);
+    let had = s.pending.contains_key(&cid(id));
+    let r = s.pending_failed_head(cid(id));
+    assert!(r.is_some() == had);
+    assert!(inv(&s));
+    std::mem::forget((s, r));
 }
